@@ -431,11 +431,15 @@ func runC09(c *Ctx) {
 	}
 	for phase, calls := range phases {
 		rounds := c.pick(3, 12)
+		iters := c.pick(12, 40)
 		if phase >= 2 {
-			rounds = c.pick(1, 4)
+			// one entry point only: more and longer runs, so that rare overlaps (a failing call,
+			// then two calls at once on what it left behind) do occur
+			rounds = c.pick(3, 8)
+			iters = c.pick(30, 80)
 		}
 		for rd := 0; rd < rounds; rd++ {
-			sp := stressSpec{Pool: poolFile, Calls: calls, Goroutines: 8, Iterations: c.pick(12, 40), Seed: c.Seed*100 + int64(rd)}
+			sp := stressSpec{Pool: poolFile, Calls: calls, Goroutines: 8, Iterations: iters, Seed: c.Seed*100 + int64(rd)}
 			res, stderr := c.runStressChild(raceExe, dir, sp)
 			stressRuns++
 			evs := []ev{}
